@@ -4,6 +4,7 @@ package main
 
 import (
 	"fmt"
+	"sync"
 	"go/constant"
 	"go/token"
 	"go/types"
@@ -260,6 +261,10 @@ type Exec struct {
 	simLimit   int64
 	relMode    bool
 	allocMode  bool
+	sharedTables map[string]bool
+	sharedLens   map[string]int64
+	sharedRegs   map[string]*Region
+	sharedRegMu  sync.Mutex
 }
 
 // SpecHook lets a proof driver add hypotheses when the path reads input bytes or jumps.
@@ -268,7 +273,7 @@ type SpecHook interface {
 }
 
 func (ex *Exec) unsupported(st *State, what string, pos token.Pos) {
-	msg := fmt.Sprintf("%s at %s", what, ex.eng.prog.Fset.Position(pos))
+	msg := fmt.Sprintf("%s at %s", what, ex.fn.Prog.Fset.Position(pos))
 	for _, u := range ex.unsup {
 		if u == msg {
 			return
@@ -446,7 +451,14 @@ func (ex *Exec) load(st *State, p Place) Value {
 		case *StructV:
 			v = x.Fields[e.Field]
 		case *ArrayV:
-			v = Select(x.Arr, e.Index)
+			sel := Select(x.Arr, e.Index)
+			if x.ElemT != nil {
+				if at, ok := x.ElemT.Underlying().(*types.Array); ok {
+					v = &ArrayV{Arr: sel, Len: at.Len(), ElemT: at.Elem()}
+					continue
+				}
+			}
+			v = sel
 		case *OpaqueV:
 			return &OpaqueV{T: nil, Name: x.Name + ".sub"}
 		default:
@@ -502,7 +514,7 @@ func (ex *Exec) oblige(st *State, kind, name string, goal *Term, pos token.Pos) 
 }
 
 func (ex *Exec) siteName(pos token.Pos, what string) string {
-	p := ex.eng.prog.Fset.Position(pos)
+	p := ex.fn.Prog.Fset.Position(pos)
 	return fmt.Sprintf("%s@L%d", what, p.Line)
 }
 
